@@ -156,7 +156,7 @@ def r9_math_inc(text, names):
     while True:
         toks, match = _toks(text)
         for i, t in enumerate(toks):
-            if t.text == "+=" and toks[i + 1].text == "1" and toks[i + 2].text == ";":
+            if t.text == "+=" and toks[i + 1].text == "1" and toks[i + 2].text in (";", ","):
                 s = i - 1
                 while s >= 0 and (toks[s].kind == "ident" or toks[s].text == "."):
                     s -= 1
@@ -165,7 +165,8 @@ def r9_math_inc(text, names):
                 if lhs not in names:
                     continue
                 src = text[toks[s].start:toks[i - 1].end]
-                text = text[:toks[s].start] + "%s = verif_math_inc(%s)" % (src, src) + text[toks[i + 1].end:]
+                fn = names[lhs] if isinstance(names, dict) else "verif_math_inc"
+                text = text[:toks[s].start] + "%s = %s(%s)" % (src, fn, src) + text[toks[i + 1].end:]
                 hits += 1
                 break
         else:
@@ -524,6 +525,10 @@ class FnItem:
             where, anchor, txt = pr[0], pr[1], pr[2]
             occ = pr[3] if len(pr) > 3 else None
             optional = pr[4] if len(pr) > 4 else False
+            if where == "end":
+                # just before the closing brace of the function body
+                inserts.append((len(body.rstrip()) - 1, "\n" + _indent(txt, 12) + "\n", "proof@end"))
+                continue
             offs = _find_anchor(nbody, anchor)
             if optional and not offs:
                 self.skipped_optional = getattr(self, "skipped_optional", []) + [anchor]
